@@ -321,6 +321,41 @@ NONREP = [
     ("non-enumerable", 'var q = {a: 1}; Object.defineProperty(q, "h", {value: 2, enumerable: false}); ', "q"),
     ("array length set", "var q = [1, 2, 3]; q.length = 1; ", "q"),
     ("void 0", "", "void 0"),
+    # typed arrays holding values JSON cannot write
+    ("Float64Array non-finite", "", "new Float64Array([NaN, Infinity, -Infinity, -0, 1.5])"),
+    ("Float32Array non-finite", "", "new Float32Array([1.5, NaN, -Infinity])"),
+    ("Float64Array NaN only", "", "new Float64Array([NaN])"),
+    # strings and keys with surrogates in every arrangement
+    ("lone lead", "", '"a\\ud800b"'), ("lone trail", "", '"a\\udc00b"'), ("only lone trail", "", '"\\udfff"'), ("pair", "", '"\\ud83d\\ude00"'),
+    ("reversed pair", "", '"\\ude00\\ud83d"'), ("trail then pair", "", '"\\udc00\\ud83d\\ude00"'), ("pair then lead", "", '"\\ud83d\\ude00\\ud800"'),
+    ("lone trail key", "", '{"\\udc00": 1}'), ("lone lead key", "", '{"k\\ud800": 1}'), ("lone trail + quote", "", '"\\udc00\\"\\n"'),
+    ("String object lone trail", "", 'new String("\\udc01")'), ("toJSON -> lone trail", "", '{toJSON: function () { return "\\udc02" }}'),
+    # deletion and re-creation on objects that own accessors (they keep a separate key order)
+    ("accessor, data re-added", "var q = {a: 1, get g() { return 5 }, b: 2}; delete q.a; q.a = 4; ", "q"),
+    ("accessor, data deleted", "var q = {a: 1, get g() { return 5 }, b: 2}; delete q.a; ", "q"),
+    ("accessor, two re-added", "var q = {a: 1, b: 2, get g() { return 5 }, c: 3}; delete q.b; delete q.a; q.b = 7; q.d = 8; q.a = 9; ", "q"),
+    ("accessor re-added as data", "var q = {a: 1, get g() { return 5 }, b: 2}; delete q.g; q.g = 6; ", "q"),
+    ("accessor defined later, data re-added", 'var q = {a: 1, b: 2}; Object.defineProperty(q, "g", {get: function () { return 5 }, enumerable: true, configurable: true}); delete q.a; q.a = 4; ', "q"),
+    ("setter only, data re-added", "var q = {a: 1, set s(v) { }, b: 2}; delete q.a; q.a = 4; ", "q"),
+    # JSON.stringify started again while a call is in progress
+    ("getter stringifies another", "var o2 = {x: [1, {y: 2}]}; ", "{a: 1, get g() { return JSON.stringify(o2) }, b: o2}"),
+    ("getter stringifies the root once", "var busy = false; var q = {a: 1, get g() { if (busy) { return 0 } busy = true; var r; try { r = JSON.stringify(q) } catch (e) { r = e.name } busy = false; return r }, b: [2]}; ", "q"),
+    ("toJSON stringifies this", "var busy = false; var q = {a: [1], toJSON: function () { if (busy) { return 7 } busy = true; var r; try { r = JSON.stringify(this) } catch (e) { r = e.name } busy = false; return {was: r, a: this.a} }}; ", "q"),
+    ("toJSON stringifies sibling", "var sib = {k: [1]}; ", "{s: sib, t: {toJSON: function () { return JSON.stringify(sib) + JSON.stringify([sib, sib]) }}}"),
+    ("inner call fails on a cycle", "var cyc = {}; cyc.c = cyc; ", "{a: [1], get g() { try { return JSON.stringify(cyc) } catch (e) { return e.name } }, b: {c: 2}}"),
+    ("inner call fails, same object later", "var cyc = {}; cyc.c = cyc; var ok = {z: 1}; ", "[ok, {get g() { try { return JSON.stringify([ok, cyc]) } catch (e) { return e.name } }}, ok, [ok]]"),
+    ("getter throws then plain", "var t = {get g() { throw new RangeError('r') }}; var ok = {z: [1]}; var first; try { JSON.stringify([ok, t]) } catch (e) { first = e.name } ", "[first, ok, [ok]]"),
+]
+REENTRANT_CALLS = [
+    ("replacer stringifies holder", "var depth = 0; function rep(k, v) { if (depth) { return v } depth++; var r; try { r = JSON.stringify(this) } catch (e) { r = e.name } depth--; "
+                                    "return typeof v === 'number' ? r : v } ", "JSON.stringify({a: 1, b: [2, {c: 3}]}, rep)"),
+    ("replacer stringifies value", "var depth = 0; function rep(k, v) { if (depth || typeof v !== 'object') { return v } depth++; var r; try { r = JSON.stringify(v) } catch (e) { r = e.name } depth--; "
+                                   "return k === 'b' ? r : v } ", "JSON.stringify({a: {x: 1}, b: [2, {c: 3}], c: {b: {d: 4}}}, rep)"),
+    ("reviver stringifies holder", "", "JSON.stringify(JSON.parse('{\"a\":[1,{\"b\":2}],\"c\":3}', function (k, v) { return typeof v === 'number' ? JSON.stringify(this) : v }))"),
+    ("stringify inside toString of key", "var o2 = {p: [1]}; var k = {toString: function () { return JSON.stringify(o2) }}; var q = {}; q[k] = o2; ", "JSON.stringify([q, o2])"),
+    ("parse inside toJSON", "", "JSON.stringify({a: {toJSON: function () { return JSON.parse('[1,{\"z\":[2]}]') }}, b: 1})"),
+    ("indent, getter stringifies with other indent", "var o2 = {x: [1]}; ", "JSON.stringify({a: [1], get g() { return JSON.stringify(o2, null, 4) }, b: o2}, null, 1)"),
+    ("replacer array outer, none inner", "var o2 = {a: 1, z: 2}; ", "JSON.stringify({a: 1, z: 2, get g() { return JSON.stringify(o2) }}, ['a', 'g'])"),
 ]
 POSITIONS = [("root", "%s"), ("in array", "[%s]"), ("mid array", "[1, %s, 2]"), ("property", "{a: %s}"),
              ("mid property", "{a: 1, b: %s, c: 2}"), ("array in object", "{a: [%s]}"), ("object in array", "[{a: %s}]"),
@@ -338,6 +373,9 @@ def nonrep_cases():
                 src = "%svar v = %s; var res; try { res = %s } catch (e) { __out(e instanceof TypeError); res = \"threw\" } res" % (
                     pre, val, ftmpl)
                 out.append(("nonrep %s / %s%s :: %s" % (label, pname, fname, src), {"src": src}))
+    for label, pre, call in REENTRANT_CALLS:
+        src = "%svar res; try { res = %s } catch (e) { __out(e instanceof TypeError); res = \"threw\" } res" % (pre, call)
+        out.append(("nonrep %s :: %s" % (label, src), {"src": src}))
     # argument-count edge
     for src in ("JSON.stringify()", "typeof JSON.stringify", "typeof JSON.parse", "typeof JSON", "JSON.stringify(null)",
                 "JSON.stringify(true)", 'JSON.stringify("")'):
